@@ -57,8 +57,8 @@ Proof. exact push_full. Qed.
 Print Assumptions C07_push_full.
 
 Theorem C07_add_keeps : forall s e,
-  enabled (cfg s) = true -> file_enabled (cfg s) = true -> lenZ (buf s) < cap (cfg s) ->
-  flat (add s e) = flat s ++ [e] /\ lenZ (buf (add s e)) < cap (cfg (add s e)).
+  enabled (cfg s) = true -> file_enabled (cfg s) = true -> pending s = false -> lenZ (buf s) < cap (cfg s) ->
+  flat (add s e) = flat s ++ [e] /\ lenZ (buf (add s e)) < cap (cfg (add s e)) /\ pending (add s e) = false.
 Proof. exact add_file_enabled_keeps. Qed.
 Print Assumptions C07_add_keeps.
 
